@@ -149,7 +149,8 @@ def run(ctx):
     maxlen = 4 if quick else 5
     nrand = 2000 if quick else 30000
     out = os.path.join(ctx.work, "options.ndjson")
-    rc, o = ctx.run([exe, "--out", out, "--maxlen", str(maxlen), "--random", str(nrand)], timeout=1200)
+    rc, o = ctx.run([exe, "--out", out, "--maxlen", str(maxlen), "--random", str(nrand)] +
+                    (["--quick"] if quick else []), timeout=1200)
     if rc != 0:
         if rc < 0 or "panicked" in o or rc in (101, 134, 139):
             ctx.violation("driver-crash", "the options driver died while calling the code under test "
@@ -208,7 +209,8 @@ def run(ctx):
         jobs.submit("mutant", mod, cfg + ".cfg", cfg)
     jobs.submit("table", TRACE_SPEC[0], TRACE_SPEC[1], "table",
                 env={"TRACE": os.path.join(sd, "table.ndjson")})
-    jobs.submit("corrupt", TRACE_SPEC[0], TRACE_SPEC[1], "corrupt", env={"TRACE": corrupt})
+    if not quick:
+        jobs.submit("corrupt", TRACE_SPEC[0], TRACE_SPEC[1], "corrupt", env={"TRACE": corrupt})
     for p in parts:
         jobs.submit("trace", TRACE_SPEC[0], TRACE_SPEC[1],
                     "trace_" + os.path.splitext(os.path.basename(p))[0], env={"TRACE": p}, path=p)
